@@ -161,6 +161,7 @@ class L1Run:
         self.accepted_counter = 0
         self.pick_answers = []  # answers of the scheduler's random draws since the last restart-file write
         self.restart_text = None
+        self.last_draws = []
         self._setup()
 
     # ------------------------------------------------------------------
@@ -334,11 +335,13 @@ class L1Run:
     def _note_pick(self, n0):
         """Remember how the scheduler's own draws were answered: after a restart the
         restored generator state must give the same answers."""
+        self.last_draws = []  # the scheduler's fresh draws of this pick: (label, answer, weights)
         for c, n, lab, w in self.ch.trace[n0:]:
             if lab.startswith("pick"):
                 if lab.endswith("!"):
                     continue
                 self.pick_answers.append((lab, c, None if w is None else [float(x) for x in w]))
+                self.last_draws.append((lab, c, None if w is None else [float(x) for x in w]))
 
     def _pre_pick(self):
         st = self.state
